@@ -25,6 +25,7 @@ class LRMonitor:
         self.cells = set()
         self.c = dict(shifts=0, reduces=0, recoveries=0, next_tokens=0, parses=0, diverged=0)
         self.installed = False
+        self.check_stall = False
 
     def install(self):
         if self.installed:
@@ -84,6 +85,15 @@ class LRMonitor:
             mon.c["recoveries"] += 1
             self._pgv_seen = set()
             self._pgv_since = 0
+            # bounded progress: between two recoveries the position strictly
+            # advances or a shift happens
+            head = self.parse_stack[-1]
+            last = getattr(self, "_pgv_last_rec", None)
+            now = (mon.c["shifts"], head.position)
+            if mon.check_stall and last is not None and last[0] == now[0] and now[1] <= last[1]:
+                mon.c["diverged"] += 1
+                raise Diverged("recovery stalled: recovery entered again at position %d (previous at %d) with no shift in between" % (now[1], last[1]))
+            self._pgv_last_rec = now
             return o["rec"](self)
 
         def parse(self, *a, **k):
@@ -91,6 +101,7 @@ class LRMonitor:
             self._pgv_seen = set()
             self._pgv_steps = 0
             self._pgv_since = 0
+            self._pgv_last_rec = None
             return o["parse"](self, *a, **k)
 
         C._next_tokens = _next_tokens
